@@ -1,6 +1,7 @@
 import Dalek.IR.Tactics
 import Dalek.Proofs.AlgZModLemmas
 import Mathlib.Tactic.Ring
+import Mathlib.Tactic.LinearCombination
 /-! Tactics for proofs about shallow twins (`*_sh`) of translated AlgIR programs interpreted by `zmodOps`.
 
 `alg_lets f` unfolds the shallow twin `f`, turns its `let` chain into local variables with defining
@@ -11,9 +12,9 @@ term (the normal forms of the operands), which matters for the ~250-squaring exp
 Nothing here is trusted: the tactics only build proof terms. -/
 open Lean Elab Tactic Meta
 
-/-- Eliminate all hypotheses `hL_i : x = v` produced by `lets_to_eqs`, oldest definition first
-(`lets_to_eqs` numbers the latest definition `0`), normalising `v` by `ring_nf` before substituting. -/
-elab "subst_lets_ring" : tactic => withMainContext do
+/-- indices `n` of the hypotheses `hL_n` in the context, oldest definition first
+(`lets_to_eqs` numbers the latest definition `0`) -/
+def hLIndices : TacticM (Array Nat) := withMainContext do
   let lctx ← getLCtx
   let mut idx : Array Nat := #[]
   for d in lctx do
@@ -21,10 +22,57 @@ elab "subst_lets_ring" : tactic => withMainContext do
     let s := d.userName.toString
     if s.startsWith "hL_" then
       if let some n := (s.drop 3).toNat? then idx := idx.push n
-  let sorted := idx.qsort (· > ·)
-  for n in sorted do
-    let h := mkIdent (Name.mkSimple s!"hL_{n}")
+  return idx.qsort (· > ·)
+
+/-- the two sides of the equation that is the type of the hypothesis named `n` -/
+def eqSidesOf (n : Name) : TacticM (Option (Expr × Expr)) := withMainContext do
+  let lctx ← getLCtx
+  let some d := lctx.findFromUserName? n | return none
+  let t ← instantiateMVars d.type
+  let some (_, l, r) := t.eq? | return none
+  return some (l, r)
+
+/-- Eliminate the hypotheses `hL_i : x = v` produced by `lets_to_eqs`, oldest definition first,
+normalising `v` by `ring_nf` before substituting.  Definitions whose normal form is a sum or a
+difference are KEPT as atoms (so that a later exponent chain is applied to a variable, not to a
+polynomial); they are dealt with by `alg_match` / `subst_lets_rest`. -/
+elab "subst_lets_ring" : tactic => do
+  for n in (← hLIndices) do
+    let hn := Name.mkSimple s!"hL_{n}"
+    let h := mkIdent hn
     evalTactic (← `(tactic| try ring_nf at $h:ident))
+    let keep ← do
+      match ← eqSidesOf hn with
+      | some (_, r) => pure (r.isAppOf ``HAdd.hAdd || r.isAppOf ``HSub.hSub)
+      | none => pure false
+    unless keep do
+      evalTactic (← `(tactic| replace $h:ident := Eq.symm $h:ident))
+      evalTactic (← `(tactic| subst $h:ident))
+
+/-- `alg_match [c₁, …]`: for every kept hypothesis `hL_i : x = s` and the first given hypothesis
+`c : s' = u` with `s = s'` (checked by `linear_combination`), replace `x` by `u` everywhere. -/
+elab "alg_match " "[" cs:ident,* "]" : tactic => do
+  for n in (← hLIndices) do
+    let hn := Name.mkSimple s!"hL_{n}"
+    let h := mkIdent hn
+    for c in cs.getElems do
+      let st ← saveState
+      try
+        let some (x, _) ← eqSidesOf hn | throwError "no equation"
+        let some (_, u) ← eqSidesOf c.getId | throwError "no equation"
+        let xs ← withMainContext <| Tactic.runTermElab (Term.exprToSyntax x)
+        let us ← withMainContext <| Tactic.runTermElab (Term.exprToSyntax u)
+        Tactic.withoutRecover <| evalTactic
+          (← `(tactic| replace $h:ident : $xs = $us := by linear_combination $h:ident + $c:ident))
+        evalTactic (← `(tactic| replace $h:ident := Eq.symm $h:ident))
+        evalTactic (← `(tactic| subst $h:ident))
+        break
+      catch _ => st.restore
+
+/-- substitute all remaining `hL_i : x = v` (oldest first) -/
+elab "subst_lets_rest" : tactic => do
+  for n in (← hLIndices) do
+    let h := mkIdent (Name.mkSimple s!"hL_{n}")
     evalTactic (← `(tactic| replace $h:ident := Eq.symm $h:ident))
     evalTactic (← `(tactic| subst $h:ident))
 
@@ -39,6 +87,15 @@ macro "zmodOps_unfold_at_all" : tactic =>
       Dalek.Proofs.const_MINUS_ONE, Dalek.Proofs.const_EDWARDS_D, Dalek.Proofs.const_EDWARDS_D2,
       Dalek.Proofs.const_SQRT_M1, Dalek.Proofs.c2f_ne_zero_iff, Dalek.Proofs.c2f_eq_zero_iff, ite_not] at *)
 
-macro "alg_lets " f:ident : tactic =>
-  `(tactic| (unfold $f; extract_lets; lets_to_eqs; zmodOps_unfold_at_all; subst_lets_ring;
-             try simp only [Dalek.Proofs.c2f_ne_zero_iff, Dalek.Proofs.c2f_eq_zero_iff, ite_not]))
+/-- `alg_lets f`: see the module doc.  `alg_lets f [c₁, …]` additionally identifies intermediate sums
+with the variables given by hypotheses `cᵢ : sᵢ = uᵢ` (obtained by `generalize cᵢ : sᵢ = uᵢ` on the
+goal), so that exponent chains applied to such sums are normalised with `uᵢ` as an atom. -/
+syntax "alg_lets " ident (" [" ident,* "]")? : tactic
+macro_rules
+  | `(tactic| alg_lets $f:ident) =>
+    `(tactic| (unfold $f; extract_lets; lets_to_eqs; zmodOps_unfold_at_all; subst_lets_ring; subst_lets_rest;
+               try simp only [Dalek.Proofs.c2f_ne_zero_iff, Dalek.Proofs.c2f_eq_zero_iff, ite_not]))
+  | `(tactic| alg_lets $f:ident [$cs,*]) =>
+    `(tactic| (unfold $f; extract_lets; lets_to_eqs; zmodOps_unfold_at_all; subst_lets_ring;
+               alg_match [$cs,*]; subst_lets_rest;
+               try simp only [Dalek.Proofs.c2f_ne_zero_iff, Dalek.Proofs.c2f_eq_zero_iff, ite_not]))
